@@ -117,6 +117,7 @@ StepQev(rec) ==
 StepEnv(rec) ==
   CASE rec.f = "setmem" -> /\ mem' = SetMem(mem, rec.c, rec.v, rec.val) /\ UNCHANGED <<S, cfg, skip, res>>
     [] rec.f = "flag" -> /\ cfg' = SetFlag(cfg, rec) /\ UNCHANGED <<S, mem, skip, res>>
+    [] rec.f = "gname" -> /\ cfg' = SetGroupName(cfg, rec) /\ UNCHANGED <<S, mem, skip, res>>
     [] OTHER -> UNCHANGED <<S, mem, cfg, skip, res>>
 
 \* fold the finished scenario's monitor into the result
